@@ -86,7 +86,7 @@ func runOnce(c Case) (*fplab.Obs, error) {
 	args := []string{"--out", filepath.Join(work, "out"), "--pkg-prefix", "example.test/gen", "--thrift-root", idl}
 	args = append(args, fplab.PluginArgs(c.Plugins)...)
 	args = append(args, filepath.Join(idl, "svc.thrift"))
-	return fplab.Run{Thriftrw: thriftrw, Fakeplugin: fake, Work: work, Dir: work, Args: args, Plugins: c.Plugins, Timeout: 60 * time.Second}.Do()
+	return fplab.Run{Thriftrw: thriftrw, Fakeplugin: fake, Work: work, Dir: work, Args: args, Plugins: c.Plugins, Timeout: hostTimeout}.Do()
 }
 
 // envError marks harness problems (not verdicts).
@@ -96,18 +96,24 @@ func (e envError) Error() string { return "environment: " + e.err.Error() }
 
 // checkCase runs the host (once more if it hit the 60 s ceiling) and judges
 // the observation.
+// hostTimeout is the wall-clock ceiling of one thriftrw run: 60 s, and 240 s for the retry that
+// decides whether a run that hit the ceiling counts as a hang (the machine may be busy).
+var hostTimeout = 60 * time.Second
+
 func checkCase(c Case) (*fplab.Obs, error) {
 	o, err := runOnce(c)
 	if err != nil {
 		return nil, envError{err}
 	}
 	if o.TimedOut {
+		hostTimeout = 240 * time.Second
 		o, err = runOnce(c)
+		hostTimeout = 60 * time.Second
 		if err != nil {
 			return nil, envError{err}
 		}
 		if o.TimedOut {
-			return o, ev.Errf("host/hang", "thriftrw did not finish within 60 s (twice); plugins: %s", describe(c))
+			return o, ev.Errf("host/hang", "thriftrw did not finish within 60 s, nor within 240 s when run again; plugins: %s", describe(c))
 		}
 	}
 	return o, judge(c, o)
